@@ -340,7 +340,8 @@ bool hasUnitsImports(const UnitsPtr &units)
 {
     bool importPresent = units->isImport();
     auto model = owningModel(units);
-    size_t unistCount = units->unitCount();
+    // Note: the references of units with a cyclic definition are not followed.
+    size_t unistCount = hasUnitsCycle(units) ? 0 : units->unitCount();
     for (size_t index = 0; !importPresent && (index < unistCount); ++index) {
         std::string reference = units->unitAttributeReference(index);
         if (!reference.empty() && !isStandardUnitName(reference)) {
